@@ -265,7 +265,7 @@ def parseResNames (args : List SExp) : Option (List Name) :=
 
 def plumbWf (cfg : Plumb.Cfg) (kind : String) (args : List SExp) : Option (Bool × String) :=
   match kind with
-  | "curry" | "flip" | "apply" | "uncurrycurry" => do
+  | "curry" | "flip" | "apply" | "uncurrycurry" | "nest3" | "nest4" => do
     let ps ← parseParams args "ps"
     let n := (← parseTyIds args "rs").length
     let rn := Plumb.effResults cfg (← parseResNames args)
@@ -279,6 +279,17 @@ def plumbWf (cfg : Plumb.Cfg) (kind : String) (args : List SExp) : Option (Bool 
     | "curry" => some (fin (Plumb.wrapperWellFormed (Plumb.curryTm cfg ps n)) (resOk (ens.take 1) (ens.drop 1)))
     | "flip" => some (fin (Plumb.wrapperWellFormed (Plumb.flipTm cfg ps n)) (resOk [] ens))
     | "apply" => some (fin (Plumb.wrapperWellFormed (Plumb.applyTm cfg ps n)) (resOk (ens.drop (ens.length - 1)) (ens.take (ens.length - 1))))
+    | "nest3" | "nest4" =>
+      -- deriveFlip(deriveUncurry(deriveCurry(F))) [and deriveApply(…, last)]: every wrapper of the nest must type-check;
+      -- each works on the (renamed) signature of the one inside it
+      let (first, rest) := Plumb.currySig eff
+      let (o, i) := Plumb.uncurryParams cfg first rest
+      let merged := o ++ i
+      let flipped := Plumb.flipSig (Plumb.effParams cfg [Plumb.fName] Plumb.paramPrefix merged)
+      some (fin (Plumb.wrapperWellFormed (Plumb.curryTm cfg ps n) &&
+            Plumb.wrapperWellFormed (Plumb.uncurryTm cfg first rest n) &&
+            Plumb.wrapperWellFormed (Plumb.flipTm cfg merged n) &&
+            (kind == "nest3" || Plumb.wrapperWellFormed (Plumb.applyTm cfg flipped n))) true)
     | _ =>
       let (first, rest) := Plumb.currySig eff
       let (o, i) := Plumb.uncurryParams cfg first rest
@@ -379,6 +390,24 @@ def runPlumb (s : DState) (fl : Flags) (name : String) (args : List SExp) : Opti
       some (answer ok (twice (showOut (Plumb.runApply cfg ps f last vs.dropLast))) (twice (showOut (Spec.applySpec f last vs.dropLast))))
     | "uncurrycurry", _ =>
       some (answer ok (twice (showOut (Plumb.runUncurryCurry cfg ps f vs))) (twice (showOut (Spec.callOnce f vs))))
+    | "nest3", a :: b :: rest =>
+      -- flip of (uncurry of curry of f): the inner pair behaves as f (uncurry_curry), flip swaps the first two
+      let inner : List Nat → List Nat := fun as => match Plumb.runUncurryCurry cfg ps f as with
+        | some (_, r) => r
+        | none => []
+      let m := match Plumb.runUncurryCurry cfg ps f (a :: b :: rest) with
+        | some _ => Plumb.runFlip cfg ps inner (b :: a :: rest) |>.map fun (_, r) => ([a :: b :: rest], r)
+        | none => none
+      some (answer ok (twice (showOut m)) (twice (showOut (Spec.callOnce f vs))))
+    | "nest4", a :: b :: _ =>
+      let last := vs.getLast?.getD 0
+      let mid := (vs.drop 2).dropLast
+      let m := match Plumb.runUncurryCurry cfg ps f vs with
+        | some _ => Plumb.runApply cfg (Plumb.flipSig ps) (fun as => match as with
+            | b' :: a' :: r => f (a' :: b' :: r)
+            | _ => []) last (b :: a :: mid) |>.map fun (_, r) => ([vs], r)
+        | none => none
+      some (answer ok (twice (showOut m)) (twice (showOut (Spec.callOnce f vs))))
     | _, _ => none
 
 /-- behaviour answer of a class with a custom type in place of `error`: a refused call has no behaviour
@@ -531,7 +560,7 @@ def runChain (s : DState) (fl : Flags) (name : String) (args : List SExp) : Opti
     | _ => some (answer ok m sp)
   | _ => none
 
-def plumbOps : List String := ["curry", "flip", "apply", "uncurry", "uncurrycurry", "tuple"]
+def plumbOps : List String := ["curry", "flip", "apply", "uncurry", "uncurrycurry", "tuple", "nest3", "nest4"]
 def chainOps : List String := ["compose", "fmape", "joine", "bind", "traverse", "toerror"]
 
 def run (s : DState) (name : String) (args : List SExp) : Option String :=
